@@ -1467,11 +1467,23 @@ class Wtp:
 
                 return "".join(parts)
 
-            def expand_parserfn(fn_name: str, args: Sequence[str]) -> str:
+            def expand_parserfn(
+                fn_name: str, args: Sequence[str], call_args: Sequence[str]
+            ) -> str:
+                # ``call_args`` is the call as written (name part already
+                # expanded); used when the call is left unexpanded
+                def unexpanded_parserfn() -> str:
+                    # Like a template that is not expanded: the name part
+                    # is kept as written and the arguments are processed
+                    # under the current selection
+                    new_args = (call_args[0],) + tuple(
+                        expand_recurse(x, parent, expand_all)
+                        for x in call_args[1:]
+                    )
+                    return self._unexpanded_template(new_args, False)
+
                 if not expand_parserfns:
-                    if not args:
-                        return "{{" + fn_name + "}}"
-                    return "{{" + fn_name + ":" + "|".join(args) + "}}"
+                    return unexpanded_parserfn()
                 # Call parser function
                 self.expand_stack.append(fn_name)
 
@@ -1483,7 +1495,7 @@ class Wtp:
                 if fn_name == "#invoke":
                     if not expand_invoke:
                         self.expand_stack.pop()  # fn_name
-                        return "{{#invoke:" + "|".join(args) + "}}"
+                        return unexpanded_parserfn()
                     ret = invoke_fn(args, expander, parent)
                     # print(f"invoke: {ret=!r}")
                 else:
@@ -1565,7 +1577,9 @@ class Wtp:
                         ):
                             self.expand_stack.append(fn_name)
                             ret = expand_parserfn(
-                                fn_name, (tname[ofs + 1 :].lstrip(),) + args[1:]
+                                fn_name,
+                                (tname[ofs + 1 :].lstrip(),) + args[1:],
+                                (expanded_name_arg,) + args[1:],
                             )
                             self.expand_stack.pop()
                             parts.append(ret)
@@ -1580,7 +1594,11 @@ class Wtp:
                     if (
                         fn_name in PARSER_FUNCTIONS and len(args) == 1
                     ) or fn_name.startswith("#"):
-                        ret = expand_parserfn(fn_name, args[1:])
+                        ret = expand_parserfn(
+                            fn_name,
+                            args[1:],
+                            (expanded_name_arg,) + args[1:],
+                        )
                         parts.append(ret)
                         continue
 
